@@ -6,3 +6,4 @@
 pub mod cache;
 pub mod errs;
 pub mod nondet;
+pub mod xmlnav;
